@@ -159,6 +159,12 @@ class FaultSched(Scheduling):
             elif k == 'dup' and len(alloc) > 1:
                 other = [m for x, m in sorted(alloc.items(), key=lambda kv: kv[0].id) if x is not t]
                 new = rng.choice(other)
+            elif k == 'free' and r['available']:
+                # legal but unusual: a machine of the free pool although the algorithm holds a reservation
+                used = set(id(m) for m in alloc.values())
+                cand = [m for m in r['available'] if id(m) not in used]
+                if cand:
+                    new = rng.choice(cand)
             elif k == 'foreign':
                 f = [m for o in sorted(r['idle']) if o != oid for m in r['idle'][o]]
                 if f:
@@ -226,6 +232,9 @@ def write_files(sc, d):
         obs.append({'name': o['name'], 'start': o['start'], 'duration': o['duration'],
                     'instrument_demand': o['instrument_demand'],
                     'data_product_rate': o['data_product_rate']})
+        for key in ('min_workflow_resources', 'max_workflow_resources'):     # optional, legal, parsed
+            if o.get(key) is not None:
+                obs[-1][key] = o[key]
     resources = sc['machines']
     if sc.get('machine_order'):
         resources = {m: sc['machines'][m] for m in sc['machine_order'] if m in sc['machines']}
@@ -247,8 +256,12 @@ def write_files(sc, d):
 def make_delay_model(spec):
     if not spec:
         return None
+    seed = spec['seed']
+    if spec.get('np_seed'):
+        import numpy
+        seed = numpy.int64(seed)        # a seed taken from a numpy array (a parameter sweep) is as legal as an int
     return DelayModel(spec['prob'], spec['dist'],
-                      DelayModel.DelayDegree[spec['degree']], spec['seed'])
+                      DelayModel.DelayDegree[spec['degree']], seed)
 
 
 def build(sc, d, env, monitor=None):
@@ -377,10 +390,14 @@ def run_scenario(sc, d, oracle_cls=None, pauses=None, monitor=None, budget=None,
                     sim.resume(k)
                     orc.on_pause(k)
             if until is not None:
+                env.budget = max(env.budget, until + 1)
                 if not segs:
                     sim.start(runtime=until)
-                elif env.now < until:
-                    sim.resume(until)
+                else:
+                    if env.now < until:
+                        sim.resume(until)
+                    sim.monitor.collate_events()        # what start(runtime) does once more on return
+                res.df, res.tasks = sim.monitor.df, sim._generate_final_task_data()
             elif segs:
                 while not sim.is_finished():
                     sim.resume(env.now + 1)
